@@ -202,7 +202,8 @@ class Shaper:
         outs = []
         for d in ds:
             if d[0] == "arg":
-                outs.append(self._shape_param(f, l, depth, stack))
+                cap = self._shape_capture(f, l, proj, depth, stack) if (f.kind == "Closure" and l == 1) else None
+                outs.append(cap if cap is not None else self._shape_param(f, l, depth, stack))
             elif d[0] == "call":
                 outs.append(self._shape_call(f, d[2], depth, stack))
             else:
@@ -237,6 +238,25 @@ class Shaper:
                 else:
                     outs.append(("unknown", "rv:" + k))
         return alt(outs)
+
+    def _shape_capture(self, f, l, proj, depth, stack):
+        """a captured variable read inside a closure (`(*_1).i`) is the i-th operand of the closure aggregate built in the enclosing function"""
+        idx = None
+        for p in proj:
+            if p["k"] == "field" and isinstance(p.get("i"), int):
+                idx = p["i"]
+                break
+        if idx is None or depth <= 1:
+            return None
+        holders = [g for k, g in self.P.fns.items() if k == f.parent or f.parent in {b.get("inl") for b in g.d.get("blocks", [])}]
+        outs = []
+        for g in holders:
+            for b in sorted(g.reach_blocks):
+                for st in g.blocks[b]["stmts"]:
+                    rv = st.get("rv") or {}
+                    if rv.get("k") == "aggr" and rv.get("agg") in ("closure", "coroutine_closure") and rv.get("closure") == f.id and idx < len(rv.get("ops", [])):
+                        outs.append(self.shape_op(g, rv["ops"][idx], depth - 1, stack))
+        return alt(outs) if outs else None
 
     def _shape_param(self, f, l, depth, stack):
         name = f.lname(l)
